@@ -157,6 +157,10 @@ def run(res, tier, seed, shard, nshards):
         for interval in (0.1, 0.5):
             for how in ("eof", "reset"):
                 jobs.append(("inflight-ping", delay, interval, how))
+    # the application's header source (a callable, e.g. fetching a token) fails on some attempt: that attempt has failed, the next follows
+    for fail_on in ((2,), (2, 3), (1,), (1, 2)):
+        for disp in (None, "rel"):
+            jobs.append(("header-source", fail_on, disp))
     # a long outage: hundreds of failed attempts in one run, then service comes back
     for disp in (None, "rel"):
         jobs.append(("outage", 450 if quick else 1500, disp))
@@ -177,13 +181,15 @@ def run(res, tier, seed, shard, nshards):
             seq_case(res, W, rng, *job[1:], ji=ji)
         elif job[0] == "outage":
             outage_case(res, W, job[1], job[2])
+        elif job[0] == "header-source":
+            header_source_case(res, W, job[1], job[2])
         elif job[0] == "inflight-ping":
             inflight_ping_case(res, W, *job[1:])
         else:
             close_in_sleep_case(res, W, rng, *job[1:])
 
 
-def execute(plan, run_kwargs, hooks, disp, enabled, closer=None, url="ws://app.test/", process_reconnect=None):
+def execute(plan, run_kwargs, hooks, disp, enabled, closer=None, url="ws://app.test/", process_reconnect=None, app_kwargs=None):
     out = {}
 
     def scen():
@@ -192,7 +198,7 @@ def execute(plan, run_kwargs, hooks, disp, enabled, closer=None, url="ws://app.t
         if process_reconnect is not None:
             # the interval comes from the process-wide setting (websocket.setReconnect), run_forever() gets no reconnect argument
             H.ws().setReconnect(process_reconnect)
-        run = appsim.AppRun(plan, hooks=hooks, callbacks=enabled, last_repeats=False, url=url)
+        run = appsim.AppRun(plan, hooks=hooks, callbacks=enabled, last_repeats=False, url=url, app_kwargs=app_kwargs)
         out["run"] = run
         run.build()
         if closer is not None:
@@ -400,6 +406,49 @@ def close_in_sleep_case(res, W, rng, first, interval, disp, frac):
         bad("message-after-own-close", "a message of a connection made after close() was delivered")
     if run.open_transports():
         bad("transport-left-open", f"{len(run.open_transports())} transports open at the end")
+
+
+def header_source_case(res, W, fail_on, disp):
+    calls = {"n": 0}
+
+    def header():
+        calls["n"] += 1
+        if calls["n"] in fail_on:
+            raise RuntimeError("token service unavailable")
+        return ["X-Token: t%d" % calls["n"]]
+    first_established = 1 not in fail_on
+    plan = ([dict(outcome="ok", script=[(0.2, "frames", text("before")), (0.5, "eof")], pong=0.05)] if first_established else []) + \
+           [dict(outcome="ok", script=[(0.2, "frames", text("back")), (0.6, "close", b"\x03\xe8done")], pong=0.05)]
+    enabled = ["on_open", "on_message", "on_error", "on_close", "on_reconnect"]
+    run, out, failure, S = execute(plan, dict(reconnect=1), {}, disp, enabled, app_kwargs=dict(header=header))
+    res.case(("header-source", fail_on, disp), nontrivial=True)
+    res.count("header_source_runs")
+    res.count("runs_with_reconnect")
+    case = {"scenario": "header-callable-fails", "failing_calls": fail_on, "dispatcher": disp or "builtin"}
+
+    def bad(kind, detail, **kw):
+        res.violation(kind, f"header callable failing on call(s) {fail_on} ({disp or 'builtin'}): {detail}", case, dispatcher=disp or "builtin", final="server-close", **kw)
+    if run is None:
+        res.inconc(f"header-source case setup: {failure}")
+        return
+    if failure is not None:
+        if isinstance(failure, sched.WatchdogExpired):
+            res.inconc("watchdog")
+        else:
+            bad("no-return", f"{type(failure).__name__}: {str(failure)[:160]}", how=type(failure).__name__)
+        return
+    dexc = getattr(run, "dispatch_exc", None)
+    if dexc is not None:
+        bad("exception-escaped-into-dispatcher", f"{type(dexc).__name__}: {dexc}", exc_type=type(dexc).__name__, loss="header-source")
+        return
+    msgs = [a[0] for (t, n, a, ci, ac) in run.trace if n == "on_message"]
+    closes = [a for (t, n, a, ci, ac) in run.trace if n == "on_close"]
+    if len(run.attempts) != len(plan) or "back" not in msgs:
+        bad("reconnect-missing", f"{len(run.attempts)} connection(s) reached the network for {len(plan)} planned, messages {msgs}, header source called {calls['n']} times: "
+            f"no attempt after the one whose header source failed", after="header-source-failed")
+        return
+    if closes != [(1000, "done")]:
+        bad("on_close-before-final-ending", f"on_close calls {closes}", count=len(closes))
 
 
 def inflight_ping_case(res, W, delay, interval, how):
